@@ -401,6 +401,9 @@ def run(tier, seed):
                      "heap serializer writes exactly the text of that projection under SerCond (same content mode of stored and v-type, no "
                      "fully filtered non-empty content list), so the ACTUAL text of ArxmlFile::serialize loads strictly; the older "
                      "C17_exact_load / C17_set_version_reload (explicit RoundTrip hypothesis) are kept",
+                     "value half: C17_value_compat_is_check_value / C17_value_mask_is_check_value / C17_text_is_check_value - for a value that fits its "
+                     "specification in some version the compatibility verdict and mask for the target are exactly CharacterData::check_value for the "
+                     "target (item masks; pattern and the length bound len <= max_length are version independent)",
                      "known (not repaired): SHORT-NAME required only in the target version; pattern/number re-validation of values when the element "
                      "type of a name differs between versions (both are failures of rootrestb, not of ValidIn)"])
 
